@@ -303,6 +303,17 @@ def run_key(c) -> tuple:
         add("pem-public", lambda: k.as_pem(private=False, password="pw"))
         add("public-key-default-export", lambda: kpub.as_pem())
         add("public-key-default-export", lambda: kpub.as_dict())
+        if c["form"] in ("pem", "der"):
+            # a public-only key object that was handed private-flagged members as extra parameters: a public export still has none
+            full = rk.export_jwk(ref, True)
+            smuggled = {m: full[m] for m in (("p", "q") if ref["kty"] == "RSA" else ("d",))}
+            try:
+                ksm = jkey(rk.public_of(ref), c["form"], False, {**(_params(c["params"]) or {}), **smuggled})
+            except Exception:
+                ksm = None      # refusing such parameters is fine
+            if ksm is not None:
+                add("public-dict", lambda: ksm.as_dict(private=False))
+                add("keyset-public", lambda: KeySet([ksm]).as_dict(private=False))
     for kind, out in outputs:
         kinds.append(kind)
         hit = scan(out, secrets)
